@@ -8,7 +8,8 @@ class C03(ContCheck):
     id = 'C03'
     nontrivial_rule = ('a history is non-trivial when at least one set succeeded (map non-empty at some point); keys from a '
                        '4-letter alphabet so overwrites and repeated removals are common; removals prefer the smallest / '
-                       'largest key present; distinct = distinct case lines (three classes per history); further strata: pair form of set, own-object arguments (set/has_value with the map\'s own value object, set with its own pair, set/get/remove with its own key object), non-NULL list argument of get_keys/get_values/get_pairs, second use of a copy (`fork`, `swap`), maps of 31..257 (thorough ..1025) distinct keys in three build orders with every form of set/get/remove at the boundary positions and for absent keys below/between/above')
+                       'largest key present; distinct = distinct case lines (three classes per history); further strata: pair form of set, own-object arguments (set/has_value with the map\'s own value object, set with its own pair, set/get/remove with its own key object), non-NULL list argument of get_keys/get_values/get_pairs, second use of a copy (`fork`, `swap`), maps of 31..257 (thorough ..1025) distinct keys in three build orders with every form of set/get/remove at the boundary positions and for absent keys below/between/above'
+                       '; receiving lists of get_keys/get_values/get_pairs (each of the three list classes, already holding 0, 1, 2, 3, 5 objects; ideal: old ++ keys); depth stratum (implementation-side oracle, ASan and plain -O0 build): maps of 4000 (thorough 12000) entries with every whole-chain scenario, and stack high-water marks at 1000 / 3000 entries')
     assumptions = ['keys and values are non-empty spif_str objects, never NULL (the code asserts this)',
                    'map lengths below 2^31']
 
@@ -24,7 +25,8 @@ class C03(ContCheck):
               'returned objects are also checked not to be the caller\'s own. Pointer-level models and refinement proofs are '
               'stage 2; memory safety is decided by the sanitizer run only.'
               " Stage 2 (Properties/C03_array.v, C03_linked_list.v, C03_dlinked_list.v, C03_interchangeable.v): the pointer-level models of the three classes' map methods (probe + ordered insert of a copied pair, binary search / ordered scan, unlink on remove incl. head, inner, tail and only entry) are proved to refine the ideal dictionary for every history: never a Fault, outputs equal, keys strictly ascending, representation (incl. tail/prev links of the dlinked class) re-established after every removal; the three classes are interchangeable (corollary). 'The map holds its own copies' is decided by the correspondence check (caller objects mutated/deleted after set), the model stores key and value texts."
-              " Strengthened after the round-2 seeds: own-object arguments (SPIF_MAP_SET(m, k, SPIF_MAP_GET(m, k)), set of the map's own pair from its iterator, set/get/remove with the map's own key object, has_value of its own value), the pair form set(objpair, NULL), the non-NULL list form of get_keys/get_values/get_pairs, `fork` (dup, then keep using the copy while the original is read back) and sized maps built with quiet steps. All are harness/driver-level compositions of the existing spec operations (the model side looks the key up with MGet and then issues the existing MSet/MGet/MRemove/MHasValue); op datatypes and theorems unchanged. Maps above 300 keys are compared with the ideal dictionary only."),
+              " Strengthened after the round-2 seeds: own-object arguments (SPIF_MAP_SET(m, k, SPIF_MAP_GET(m, k)), set of the map's own pair from its iterator, set/get/remove with the map's own key object, has_value of its own value), the pair form set(objpair, NULL), the non-NULL list form of get_keys/get_values/get_pairs, `fork` (dup, then keep using the copy while the original is read back) and sized maps built with quiet steps. All are harness/driver-level compositions of the existing spec operations (the model side looks the key up with MGet and then issues the existing MSet/MGet/MRemove/MHasValue); op datatypes and theorems unchanged. Maps above 300 keys are compared with the ideal dictionary only."
+              ' Round 4 also added the receiving lists of get_keys/get_values/get_pairs: a caller-supplied list of each of the three list classes that already holds 0, 1, 2, 3 or 5 objects (`get_*_into:C:N`), on maps of 0..3 and 40 entries and inside random histories; the ideal result is old ++ keys, computed from the existing MGetKeys/MGetValues/MGetPairs. Strengthened after the round-4 seeds: a DEPTH stratum with an implementation-side oracle (the extracted models cannot run containers this large): maps of 4000 (thorough 12000) entries - every set probes the whole map first in all three classes, so a map cannot be built in less than quadratic time and recursion depth is observed through the stack high-water mark instead of a crash - built through the interface the O(1)-per-step way of the class where there is one, then every scenario the C code could answer by recursing along the chain or walking all of it (dup, a full iterator sweep, get_keys/get_values/get_pairs with and without a receiving list, get/has_key/has_value/set/remove at the last key and above it, deletion), each checked in the harness against its own array of the N objects (count, identity at first/middle/last position, full order in sweeps and to_array); run under the ASan build AND a plain -O0 build without sanitizer, both under the default 8 MB stack, with a per-case watchdog: a crash, a timeout or a wrong result is a level-A failure whose replay is `iface class deep:N;scenario`. In addition the stack high-water mark of every scenario is measured at 1000 and 3000 elements (painted stack); growth of 8 bytes per element or more shows a recursion per element, is confirmed by a run at the predicted overflow size where such a container can be built, and is reported as a broken correspondence otherwise. The sizes that were run are recorded in the evidence (coverage.depth_stratum).'),
         design_ref='DESIGN.md section 7, C03')
 
     def gen(self, tier, rng):
@@ -42,12 +44,14 @@ class C03(ContCheck):
         ex = contlib.map_exhaustive(depth)
         ex2 = contlib.map_exhaustive(3 if quick else 4, contlib.MAP_SYMBOLS2)
         sized = contlib.map_sized(contlib.SIZES_QUICK if quick else contlib.SIZES_THOROUGH, rng, all_positions=not quick)
+        recv = contlib.map_receiving()
         self.exhaustive_note = ('all %d sequences of %d operations from %s and all %d sequences of %d operations of the composite '
                                 'alphabet %s (own-object arguments, pair form, fork = dup and use the copy, swap), on three classes; '
-                                '%d histories on maps of %s keys'
+                                '%d histories on maps of %s keys; %d receiving-list histories (get_keys/get_values/get_pairs into a list of '
+                                'each of the three classes that already holds 0, 1, 2, 3, 5 objects, maps of 0..3 and 40 entries)'
                                 % (len(ex), depth, contlib.MAP_SYMBOLS, len(ex2), 3 if quick else 4, contlib.MAP_SYMBOLS2, len(sized),
-                                   '31..257' if quick else '31..1025'))
-        for ops in ex + ex2 + sized:
+                                   '31..257' if quick else '31..1025', len(recv)))
+        for ops in recv + ex + ex2 + sized:
             cases += all_classes('map', ops)
         return cases
 
